@@ -95,6 +95,14 @@ type scenario struct {
 	// segment number lies beyond that publication's FinalBlockId with a harness-made Data of that
 	// name (some producer on the path answers past the end). No such Interest, no such answer.
 	Phantom bool
+	// Burst > 0: the application may call Consume for Burst more objects (/u0 .. /u<Burst-1>, one
+	// segment each, by object name) back-to-back at ANY moment of the history (explorer operation
+	// "Burst", once per history). A call that finds the outgoing-Interest queue full blocks the
+	// application (legal back-pressure): the remaining calls are made as soon as there is room.
+	Burst int
+	// Order: order in which the default schedule runs the ready select arms: "" = source order
+	// (out, segin, fetch, check), "rev" = check, fetch, segin, out. Go's select picks any ready arm.
+	Order string
 }
 
 // ext is one foreign packet (scenario.Ext).
@@ -217,6 +225,12 @@ func (sc *scenario) String() string {
 	if sc.Cache {
 		p = append(p, "cache")
 	}
+	if sc.Burst > 0 {
+		p = append(p, fmt.Sprintf("burst%d", sc.Burst))
+	}
+	if sc.Order != "" {
+		p = append(p, "order-"+sc.Order)
+	}
 	if sc.RTT > 0 {
 		p = append(p, fmt.Sprintf("rtt%v", sc.RTT))
 	}
@@ -310,6 +324,10 @@ type inst struct {
 	dynUsed    []bool
 	dynLog     []string
 	devUsed    int
+	caps       [object.VerifArms]int // logical capacities of the consumer client's queues (the production ones)
+	appPending int                   // Consume calls of the burst the application has not been able to make yet (queue full)
+	appIssued  int
+	burstUsed  bool
 	group      string
 	hist       []string
 	done       bool
@@ -328,6 +346,8 @@ type sys struct {
 	maxDev  int
 	seg     int
 	faceOps bool // the explorer may take the consumer's face down and up again (deviations)
+	// burstOnly: the only deviation offered is the application's burst of Consume calls (family burst)
+	burstOnly bool
 }
 
 func (sc *scenario) group() string {
@@ -587,6 +607,8 @@ func (in *inst) setup(sc *scenario) {
 		panic(err)
 	}
 	vsched.Reset() // the run() goroutines (now vsched tasks) are never run: VerifStep replaces them
+	in.caps = in.cons.VerifCaps()
+	in.cons.VerifGrowQueues(queueSlack)
 	if sc.Window > 0 {
 		in.cons.VerifSetWindow(sc.Window)
 	}
@@ -594,6 +616,9 @@ func (in *inst) setup(sc *scenario) {
 	in.cs = map[string]*csEnt{}
 	for _, p := range sc.Pubs {
 		in.produce(p)
+	}
+	for k := 0; k < sc.Burst; k++ {
+		in.produce(pub{Obj: fmt.Sprintf("/u%d", k), Ver: 1, L: 1})
 	}
 	for _, x := range sc.Ext {
 		in.putForeign(x)
@@ -603,10 +628,66 @@ func (in *inst) setup(sc *scenario) {
 	}
 	for _, c := range sc.Cons {
 		in.consume(c)
+		in.checkQueues("application (Consume)")
 	}
 	if sc.Perm {
 		in.runClient()
 	}
+}
+
+// queueSlack: physical slots added to each queue of the consumer client beyond its production
+// capacity (hook VerifGrowQueues); no single operation of the harness enqueues that many items.
+const queueSlack = 64
+
+var queueName = [...]string{"outgoing-Interest queue (outpipe)", "incoming-segment queue (seginpipe)", "new-fetch queue (segfetch)"}
+
+// checkQueues compares the consumer client's queue lengths with their production capacities after
+// an operation executed by `who`. The client goroutine is the only reader of the three queues: if
+// ITS step has put more into one of them than the production channel holds, the production client
+// would be blocked in that send for ever - nothing else drains the queue - and no callback of any
+// pending fetch would ever be invoked (C15.once). An overflow caused by another thread (application,
+// engine callback) is back-pressure the production code resolves by blocking that thread until the
+// client goroutine drains; the stepped model cannot suspend a call half-way, so such a history ends
+// here without a verdict (does not occur within the stated bounds on the unchanged tree).
+func (in *inst) checkQueues(who string) bool {
+	q := in.cons.VerifQueues()
+	for i := 0; i < 3; i++ {
+		if q[i] <= in.caps[i] {
+			continue
+		}
+		if who == "client" {
+			in.bad("C15.once", "client goroutine blocks for ever in a send on its own "+queueName[i]+": the queue is full and only the client goroutine drains it; no pending callback is ever invoked",
+				fmt.Sprintf("after the step the queue holds %d items, the production channel has %d slots (fetch window %d); application Consume calls of the burst not yet made: %d; client: %s", q[i], in.caps[i], in.cons.VerifWindow(), in.appPending, clip(in.cons.VerifDump(), 1200)))
+		}
+		in.done = true
+		return false
+	}
+	return true
+}
+
+// pump lets the application make the Consume calls of its burst that are still outstanding, one at
+// a time, while the outgoing-Interest queue has room (a Consume by object name queues one metadata
+// Interest; with the queue full the application is blocked in that send).
+func (in *inst) pump() {
+	for in.appPending > 0 && !in.done {
+		if q := in.cons.VerifQueues(); q[object.VerifArmOut] >= in.caps[object.VerifArmOut] {
+			return
+		}
+		in.consume(con{Obj: fmt.Sprintf("/u%d", in.appIssued), Ver: noVer})
+		in.appIssued++
+		in.appPending--
+		if !in.checkQueues("application (Consume)") {
+			return
+		}
+	}
+}
+
+// arms in the order the default schedule tries them
+func (in *inst) armOrder() [object.VerifArms]int {
+	if in.sc != nil && in.sc.Order == "rev" {
+		return [object.VerifArms]int{object.VerifArmCheck, object.VerifArmFetch, object.VerifArmSegIn, object.VerifArmOut}
+	}
+	return [object.VerifArms]int{object.VerifArmOut, object.VerifArmSegIn, object.VerifArmFetch, object.VerifArmCheck}
 }
 
 func (in *inst) produce(p pub) {
@@ -1372,6 +1453,7 @@ func (in *inst) step(arm int) {
 	if !in.cons.VerifStep(arm) {
 		panic("harness: Step on an empty arm")
 	}
+	in.checkQueues("client")
 }
 
 // runClient runs the consumer client to quiescence in canonical arm order.
@@ -1456,7 +1538,7 @@ func reqLabel(kind string, i int, r *request) string {
 // packet was lost (or that the producer did not answer) times out.
 func (in *inst) defaultOp() string {
 	q := in.cons.VerifQueues()
-	for a := 0; a < object.VerifArms; a++ {
+	for _, a := range in.armOrder() {
 		if q[a] > 0 {
 			return "Step(" + armName[a] + ")"
 		}
@@ -1545,6 +1627,12 @@ func (s *sys) Ops(i any) []explore.Op {
 			ops = append(ops, explore.Op{Name: n, Dev: true})
 		}
 	}
+	if in.sc.Burst > 0 && !in.burstUsed {
+		add(fmt.Sprintf("Burst(%d)", in.sc.Burst))
+	}
+	if s.burstOnly {
+		return ops
+	}
 	q := in.cons.VerifQueues()
 	for a := 0; a < object.VerifArms; a++ {
 		if q[a] > 0 {
@@ -1614,6 +1702,9 @@ func (in *inst) one(name string) {
 				in.step(a)
 			}
 		}
+	case strings.HasPrefix(name, "Burst("):
+		in.burstUsed = true
+		in.appPending = in.sc.Burst
 	case name == "FaceDown", name == "FaceUp":
 		in.ce.down = name == "FaceDown"
 		in.faceLog = append(in.faceLog, name)
@@ -1650,6 +1741,10 @@ func (in *inst) one(name string) {
 	default:
 		panic("unknown op " + name)
 	}
+	if !in.done && !strings.HasPrefix(name, "Step(") {
+		in.checkQueues("engine callback / application")
+	}
+	in.pump()
 }
 
 // final runs when nothing is enabled any more: every consumer must have seen completion once.
@@ -1779,6 +1874,9 @@ func (s *sys) Canon(i any) string {
 		}
 	}
 	fmt.Fprintf(&b, "|dyn%v|t+%d|seq%d|down%v|", in.dynLog, abs, in.seqNext, in.ce.down)
+	if in.sc.Burst > 0 {
+		fmt.Fprintf(&b, "burst%v,%d,%d|", in.burstUsed, in.appPending, in.appIssued)
+	}
 	if len(in.pastReq) > 0 {
 		fmt.Fprintf(&b, "past%d|", len(in.pastReq))
 	}
